@@ -204,7 +204,7 @@ pub fn judge(id: &str, j: &Judged, ctx: &Ctx) -> CaseOut {
             let never: Vec<&str> = case.scenarios.iter().map(|s| s.name.as_str()).filter(|n| !m.attempts.iter().any(|a| a.scenario == *n && a.started.is_some())).collect();
             all.push(Violation::new(
                 "C04/torn-down-by-panic",
-                format!("polling the event stream panicked with `{p}` (a user callback's panic) instead of the stream ending; scenarios never attempted: {never:?}; attempts left without Finished: {open:?}"),
+                format!("polling the event stream panicked with `{p}` instead of the stream ending; scenarios never attempted: {never:?}; attempts left without Finished: {open:?}"),
             ));
         }
         if id == "C03" {
